@@ -2,6 +2,7 @@ package main
 
 import (
 	"fmt"
+	"sort"
 	"go/ast"
 	"go/types"
 	"strings"
@@ -276,6 +277,25 @@ func (x *Exec) frameCheck(st *State, fr *Frame, c *Contract, in *ssa.Return) {
 	}
 	for _, p := range fr.fn.Params {
 		checkCell(p.Name(), fr.vals[p])
+	}
+	// package-level variables of the repository: unchanged unless the contract names them
+	var gnames []string
+	gcell := map[string]*Cell{}
+	for g, gc := range globalCells {
+		gnames = append(gnames, g.String())
+		gcell[g.String()] = gc
+	}
+	sort.Strings(gnames)
+	for _, gn := range gnames {
+		gc := gcell[gn]
+		if allowedCells[gc] {
+			continue
+		}
+		init, ok1 := st.ghost[fmt.Sprintf("ginit:%d", gc.id)].(TV)
+		cur, ok2 := st.cells[gc].(TV)
+		if ok1 && ok2 && init.E != cur.E {
+			x.oblige(st, fr, "frame.global."+sanitizeIdent(gc.name), "frame", "frame", tEq(init.E, cur.E), in, nil)
+		}
 	}
 	for _, p := range fr.fn.FreeVars {
 		checkCell(p.Name(), fr.vals[p])
